@@ -52,7 +52,7 @@ class Gen:
             ch += ["arglen", "argget", "argget", "argset"]
         if d > 0:
             ch += ["fn", "fn", "call", "call", "call", "add", "lt", "seq", "logassign", "incdec", "and", "or", "nullish", "cond", "sub",
-                   "objlit", "objlit", "mget", "mget", "passign", "mset", "mset", "maddassign", "mincdec", "mcall", "mcall"]
+                   "objlit", "objlit", "mget", "mget", "passign", "mset", "mset", "maddassign", "mincdec", "mcall", "mcall", "new"]
             if fs.get("thisok"):
                 ch += ["this", "this"]
         c = r.choice(ch)
@@ -60,6 +60,11 @@ class Gen:
             return self.objlit(d - 1, fs)
         if c == "this":
             return N("this")
+        if c == "new":
+            fn_names = fs.get("fnames") or []
+            q = r.random()
+            callee = N("ref", x=r.choice(fn_names)) if (fn_names and q < 0.5) else self.fn(d - 1, fs) if q < 0.8 else N("ref", x=self.anyname(fs))
+            return N("new", k=[callee] + [self.expr(d - 1, fs) for _ in range(r.randint(0, 2))])
         if c in ("mset", "maddassign", "mincdec", "mcall"):
             q = r.random()
             base = self.objlit(d - 1, fs) if q < 0.25 else N("this") if (q < 0.5 and fs.get("thisok")) else N("ref", x=self.anyname(fs))
@@ -462,6 +467,8 @@ def pe(e, o):
     if t == "mincdec":
         sym = "++" if e["n"] == 1 else "--"
         return "(%s(%s).%s)" % (sym, pe(e["k"][0], o), e["x"]) if e["op"] == "pre" else "((%s).%s%s)" % (pe(e["k"][0], o), e["x"], sym)
+    if t == "new":
+        return "new (%s)(%s)" % (pe(e["k"][0], o), ", ".join(pe(a, o) for a in e["k"][1:]))
     if t == "mcall":
         return "(%s).%s(%s)" % (pe(e["k"][0], o), e["x"], ", ".join(pe(a, o) for a in e["k"][1:]))
     if t == "objlit":
